@@ -85,8 +85,8 @@ class Builder:
         if op == 5:
             return M.Never(), (lambda x: False), "Never"
         if op == 6:
-            return M.IsInstance(V), (lambda x: True), "IsInstance(V)"
-        return M.Is(None), (lambda x: False), "Is(None)"
+            return M.IsInstance(V), (lambda x: isinstance(x, V)), "IsInstance(V)"
+        return M.Is(None), (lambda x: x is None), "Is(None)"
 
 
 def snapshot(obj, depth=0):
@@ -256,33 +256,42 @@ KEYS = ["a", "b", "c"]
 DICT_OPS = ["MatchesDict", "ContainsDict", "ContainedByDict", "KeysEqual"]
 
 
-FALSY = [None, 0, "", None]      # index 0 = use the symbolic value
+FALSY = [None, 0, None]      # index 0 = use the symbolic value; 1 -> 0; 2 -> None
 
 
 def h_dict(op: int, ek: int, ok: int, o0: int, o1: int, o2: int, p0: int, p1: int, p2: int,
            va: int, vb: int, vc: int, falsy: int) -> bool:
     """
-    pre: 0 <= op < 4 and 0 <= ek < 8 and 0 <= ok < 8 and 0 <= falsy < 4
+    pre: 0 <= op < 4 and 0 <= ek < 8 and 0 <= ok < 8 and 0 <= falsy < 3
     pre: 0 <= o0 < 8 and 0 <= o1 < 8 and 0 <= o2 < 8
     post: _
     """
-    opc = ch.sel("op", op, 4)
-    e = ch.sel("ek", ek, 8)
-    o = ch.sel("ok", ok, 8)
+    try:
+        opc = ch.sel("op", op, 4)
+        e = ch.sel("ek", ek, 8)
+        o = ch.sel("ok", ok, 8)
+        fz = ch.sel("falsy", falsy, 3)
+    except ch.Prune:
+        return True
     b = Builder([o0, o1, o2], [V(p0), V(p1), V(p2)])
     expected, dens = {}, {}
+    if fz:
+        # plain falsy values are outside the domain of the ordering matchers: equality/identity/constant leaves only
+        b.leaves = (0, 1, 4, 5, 6, 7)
     descs = []
     for i, key in enumerate(KEYS):
         if e & (1 << i):
             if opc == 3:
                 expected[key] = None
                 continue
-            m, d, s = b.build(0)
+            try:
+                m, d, s = b.build(0)
+            except ch.Prune:
+                return True
             expected[key] = m
             dens[key] = d
             descs.append("%s: %s" % (key, s))
     vals = [V(va), V(vb), V(vc)]
-    fz = ch.sel("falsy", falsy, 4)
     if fz:
         # observed values that are falsy Python objects (0, "", None): a verdict must not depend on truthiness
         vals = [FALSY[fz]] * 3
@@ -529,7 +538,7 @@ HARNESSES = [
             rule="non-trivial = non-empty list", sym=("p0", "p1", "p2", "x0", "x1", "x2"), twin_fix={"op": 0, "n": 2}),
     Harness("dict", h_dict, lambda tier: [({"op": k, "ek": e}, 600) for k in range(4) for e in range(8)],
             bounds={"quick": "MatchesDict / ContainsDict / ContainedByDict / KeysEqual with every expected key set over {a,b,c} "
-                             "(leaf matchers with symbolic parameters) x every observed key set with symbolic int values or with falsy values (0, '', None)"},
+                             "(leaf matchers with symbolic parameters) x every observed key set with symbolic int values or with falsy values (0, None)"},
             rule="non-trivial = some key on either side", sym=("p0", "p1", "p2", "va", "vb", "vc"),
             twin_fix={"op": 0, "ek": 3}),
     Harness("struct", h_struct, lambda tier: [({"variant": k}, 600) for k in range(5)],
